@@ -211,7 +211,8 @@ class ControlVariates:
             if np.amin(np.absolute(sigma_x)) < 1e-12:
                 b_star = np.zeros_like(sigma_xy)
             else:
-                inv_sigma_x = np.linalg.inv(sigma_x)
+                # pseudo-inverse: collinear controls make sigma_x singular, 'inv' then returns huge values without raising
+                inv_sigma_x = np.linalg.pinv(sigma_x, hermitian=True)
                 b_star = inv_sigma_x @ sigma_xy
         except np.linalg.LinAlgError:
             logging.log(
